@@ -95,6 +95,16 @@ pub fn check(thorough: bool, _seed: u64) -> Check {
     for e in shapes(&[1.0, 2.0, 3.0, 4.0, 5.0, 6.0], 6).into_iter().filter(|e| e.len() == 6) {
         us.push(Unit { alpha: order_alphabet(&e), ends: e, depth: if thorough { 3 } else { 2 } });
     }
+    // big functions around size thresholds (every pair of arguments), and long sequences over a reduced alphabet
+    for n in threshold_sizes(thorough) {
+        if n > 12 && n <= if thorough { 257 } else { 129 } {
+            let e = iota(n);
+            us.push(Unit { alpha: order_alphabet(&e), ends: e, depth: 2 });
+        }
+    }
+    for (e, d) in [(vec![1.0, 2.0], 11usize), (vec![1.0, 2.0, 3.0], 9), (vec![1.0, 2.0, 2.0, 3.0], 8), (iota(4), 7), (iota(5), 7), (iota(6), 6), (iota(8), 5)] {
+        us.push(Unit { alpha: reduced_alphabet(&e), ends: e, depth: if thorough { d } else { d - 1 } });
+    }
     let n = us.len();
     let us = Arc::new(us);
     let body: Body = Box::new(move |unit, cx| {
@@ -153,8 +163,9 @@ pub fn check(thorough: bool, _seed: u64) -> Check {
                 ("repeated_argument", true),
                 ("empty_sequence", true),
             ],
-            split: 0,
-            bounds: json!({"shapes": "all non-decreasing end lists of length 1..5 over {1..5}, of length 1..3 over the nasty value set, of length 6 over {1..6} (depth 2; 3 thorough), and the lists 1..n for n=6..9 (12 thorough; depth 3 up to n=8, then 2)",
+            split: 2,
+            bounds: json!({"long_sequences": "reduced alphabet (every end, one point per cell, one below, one above) on [1,2], [1,2,3], [1,2,2,3], 1..4, 1..5, 1..6, 1..8 with depth 10, 8, 7, 6, 6, 5, 4 (+1 thorough); 1..n for the threshold sizes up to 129 (257) with every pair of arguments",
+                "shapes": "all non-decreasing end lists of length 1..5 over {1..5}, of length 1..3 over the nasty value set, of length 6 over {1..6} (depth 2; 3 thorough), and the lists 1..n for n=6..9 (12 thorough; depth 3 up to n=8, then 2)",
                 "sequences": if thorough {"every sequence of length 0..5 (0..4 for 5 pieces) over A(ends)"} else {"every sequence of length 0..4 (0..3 for 5 pieces) over A(ends)"},
                 "piece_types": "Probe, Poly3"}),
         }],
